@@ -208,14 +208,19 @@ class HotReloader:
             if self._thread and self._thread.is_alive():
                 return
 
+        # Optional synchronous initial check before the loop starts. It must not run under
+        # the lock: with an event loop running in this thread the check is executed by a
+        # helper thread, which needs the lock itself.
+        want_initial = self._initial_load if initial_load is None else bool(initial_load)
+        if want_initial:
+            self.check_and_reload(force=force_initial)
+
+        with self._lock:
+            if self._thread and self._thread.is_alive():
+                return
+
             poll_iv = float(interval if interval is not None else (self.poll_interval or 5.0))
             self._stop_event.clear()
-
-            # Optional synchronous initial check before the loop starts
-            want_initial = self._initial_load if initial_load is None else bool(initial_load)
-            if want_initial:
-                # RLock allows re-entrancy here
-                self.check_and_reload(force=force_initial)
 
             self._thread = threading.Thread(
                 target=self._run_loop, args=(poll_iv,), daemon=self.thread_daemon
